@@ -73,7 +73,7 @@ func (e *Engine) specKeywords() []string {
 }
 
 func (e *Engine) finiteDomain(id string, tmp string) []fdResult {
-	if id != "C11" && id != "C13" && id != "C09" && id != "C08" && id != "C12" {
+	if id != "C11" && id != "C13" && id != "C09" && id != "C08" && id != "C12" && id != "C14" && id != "C19" {
 		return nil
 	}
 	kws := e.specKeywords()
@@ -291,8 +291,9 @@ func TestGovcFiniteDomain(t *testing.T) {
 		r.Props = []string{"C11"}
 		res = append(res, r)
 	}
-	if id == "C09" || id == "C08" || id == "C12" {
-		// INCLUDE (like every keyword) must end a Description text wherever the cut falls: same bounded check, under C09
+	if id == "C09" || id == "C08" || id == "C12" || id == "C14" || id == "C19" {
+		// INCLUDE (like every keyword) must end a Description text wherever the cut falls: same bounded check, under C09;
+		// a directive that is swallowed by a Description text is neither ban-checked (C19) nor, for INCLUDE, name-checked (C14)
 		r3 := mk("directive.IsStartWithDirective/bounded/line-start#1", "BOUNDED (keywords alone, with each byte appended/prepended/inserted, their prefixes; every 3-byte string starting with 1-5, alone and followed by a blank): a Description line starts a directive iff it begins with a keyword (INCLUDE included) or a response code", lsN, lsBad)
 		r3.Goal = strings.Replace(r3.Goal, "complete domain", "bounded sample, not a proof", 1)
 		r3.Props = []string{id}
